@@ -254,6 +254,13 @@ class LSMTree(Entity):
         # SSTable levels: levels[0] is L0 (most recent)
         self._levels: list[list[SSTable]] = [[] for _ in range(max_levels)]
 
+        # WAL truncation bookkeeping.  ``_wal_unflushed`` holds the sequence number of every
+        # log entry whose data is not yet in an installed SSTable (from the moment the append
+        # starts); ``_memtable_wal_seqs`` holds the ones applied to the active memtable.
+        # A flush may only drop the log prefix below the oldest unflushed entry.
+        self._wal_unflushed: set[int] = set()
+        self._memtable_wal_seqs: list[int] = []
+
         # Logical data tracking for amplification metrics
         self._logical_data: dict[str, Any] = {}  # current logical state
         self._user_bytes_written: int = 0
@@ -350,8 +357,10 @@ class LSMTree(Entity):
 
         # WAL append
         if self._wal is not None:
-            yield from self._wal.append(key, value)
-            self._total_wal_writes += 1
+            wal_seq = yield from self._wal_append(key, value)
+            # Applied to whichever memtable is active now (a flush may have
+            # swapped it while the append was in flight).
+            self._memtable_wal_seqs.append(wal_seq)
 
         # Memtable put
         is_full = yield from self._memtable.put(key, value)
@@ -367,8 +376,10 @@ class LSMTree(Entity):
         self._logical_data[key] = value
 
         if self._wal is not None:
-            self._wal.append_sync(key, value)
+            wal_seq = self._wal.append_sync(key, value)
             self._total_wal_writes += 1
+            self._wal_unflushed.add(wal_seq)
+            self._memtable_wal_seqs.append(wal_seq)
 
         is_full = self._memtable.put_sync(key, value)
         if is_full:
@@ -460,8 +471,8 @@ class LSMTree(Entity):
         self._logical_data.pop(key, None)
 
         if self._wal is not None:
-            yield from self._wal.append(key, _TOMBSTONE)
-            self._total_wal_writes += 1
+            wal_seq = yield from self._wal_append(key, _TOMBSTONE)
+            self._memtable_wal_seqs.append(wal_seq)
 
         is_full = yield from self._memtable.put(key, _TOMBSTONE)
         if is_full:
@@ -499,6 +510,29 @@ class LSMTree(Entity):
         result = [(k, v) for k, v in sorted(merged.items()) if v is not _TOMBSTONE]
         return result
 
+    def _wal_append(self, key: str, value: Any) -> Generator[float, None, int]:
+        """Append to the WAL, tracking the entry as unflushed while the append is in flight."""
+        wal_seq = self._wal._next_sequence
+        self._wal_unflushed.add(wal_seq)
+        yield from self._wal.append(key, value)
+        self._total_wal_writes += 1
+        return wal_seq
+
+    def _truncate_wal(self, flushed_seqs: list[int]) -> None:
+        """Drop the log prefix made redundant by a newly installed SSTable.
+
+        ``flushed_seqs`` are the entries whose data the SSTable now holds. Entries
+        applied to a newer memtable, or whose append is still in flight, exist only
+        in memory: the log must keep them (and everything after them) for recovery.
+        """
+        self._wal_unflushed.difference_update(flushed_seqs)
+        if self._wal is None:
+            return
+        if self._wal_unflushed:
+            self._wal.truncate(min(self._wal_unflushed) - 1)
+        else:
+            self._wal.truncate(self._wal._next_sequence - 1)
+
     def _flush_memtable(self) -> Generator[float]:
         """Flush the active memtable to an L0 SSTable."""
         if self._memtable.size == 0:
@@ -507,6 +541,8 @@ class LSMTree(Entity):
         # Move active memtable to immutable list
         old_memtable = self._memtable
         self._immutable_memtables.append(old_memtable)
+        flushed_seqs = self._memtable_wal_seqs
+        self._memtable_wal_seqs = []
 
         # Create new active memtable
         self._memtable = Memtable(
@@ -532,9 +568,9 @@ class LSMTree(Entity):
         # Remove from immutable list
         self._immutable_memtables.remove(old_memtable)
 
-        # Truncate WAL
-        if self._wal is not None:
-            self._wal.truncate(self._wal._next_sequence - 1)
+        # Truncate WAL (only entries covered by this SSTable; writes that arrived
+        # during the flush latency live in the new memtable and stay logged)
+        self._truncate_wal(flushed_seqs)
 
         logger.debug(
             "[%s] Flushed memtable to L0 SSTable(%d keys), L0 now has %d SSTables",
@@ -559,8 +595,9 @@ class LSMTree(Entity):
 
         # Reset memtable (flush() already clears it)
 
-        if self._wal is not None:
-            self._wal.truncate(self._wal._next_sequence - 1)
+        flushed_seqs = self._memtable_wal_seqs
+        self._memtable_wal_seqs = []
+        self._truncate_wal(flushed_seqs)
 
         if self._compaction_strategy.should_compact(self._levels):
             self._compact_sync()
@@ -701,6 +738,8 @@ class LSMTree(Entity):
         if self._clock is not None:
             self._memtable.set_clock(self._clock)
         self._immutable_memtables.clear()
+        self._wal_unflushed.clear()
+        self._memtable_wal_seqs = []
 
         # Crash WAL — discard unsynced entries
         wal_lost = 0
@@ -727,6 +766,9 @@ class LSMTree(Entity):
             entries = self._wal.recover()
             for entry in entries:
                 self._memtable.put_sync(entry.key, entry.value)
+                if entry.sequence_number not in self._wal_unflushed:
+                    self._wal_unflushed.add(entry.sequence_number)
+                    self._memtable_wal_seqs.append(entry.sequence_number)
             wal_recovered = len(entries)
 
         sstable_keys = sum(s.key_count for level in self._levels for s in level)
